@@ -58,6 +58,18 @@ func specVbyte(v uint64, k int) byte {
 	return g
 }
 
+// specVarintAt: r holds the shortest varint encoding of v at position at
+// (bytes at+k for k >= from).
+func specVarintAt(r []byte, at int, v uint64) bool { return specVarintAtFrom(r, at, v, 0) }
+
+//@ unfold 10
+func specVarintAtFrom(r []byte, at int, v uint64, k int) bool {
+	if k >= specVlen(v) || k >= 10 {
+		return true
+	}
+	return r[at+k] == specVbyte(v, k) && specVarintAtFrom(r, at, v, k+1)
+}
+
 // specVarintLen parses the varint grammar at the start of b: bytes with the
 // continuation bit, ended by one without; at most 10 bytes, the tenth being 0
 // or 1. It returns the length, or the error code of the first defect.
@@ -209,12 +221,13 @@ func contract_Number_IsValid(n Number) (ok bool) {
 // ---------------------------------------------------------------- contracts: append
 
 //@ props C01
+//@ split
 func contract_AppendVarint(b []byte, v uint64) (r []byte) {
 	modifiesTail(b)
 	ensures(freshSlice(r) || sameArray(r, b)) // extended in place, or reallocated
 	ensures(len(r) == len(b)+specVlen(v))
 	ensures(forall(0, len(b), func(i int) bool { return r[i] == old(b[i]) }))
-	ensures(forall(0, specVlen(v), func(k int) bool { return r[len(b)+k] == specVbyte(v, k) }))
+	ensures(specVarintAt(r, len(b), v))
 	return
 }
 
@@ -244,9 +257,7 @@ func contract_AppendTag(b []byte, num Number, typ Type) (r []byte) {
 	ensures(freshSlice(r) || sameArray(r, b)) // extended in place, or reallocated
 	ensures(len(r) == len(b)+specVlen(uint64(num)<<3|uint64(typ&7)))
 	ensures(forall(0, len(b), func(i int) bool { return r[i] == old(b[i]) }))
-	ensures(forall(0, specVlen(uint64(num)<<3|uint64(typ&7)), func(k int) bool {
-		return r[len(b)+k] == specVbyte(uint64(num)<<3|uint64(typ&7), k)
-	}))
+	ensures(specVarintAt(r, len(b), uint64(num)<<3|uint64(typ&7)))
 	return
 }
 
@@ -258,7 +269,7 @@ func contract_AppendBytes(b []byte, v []byte) (r []byte) {
 	ensures(freshSlice(r) || sameArray(r, b)) // extended in place, or reallocated
 	ensures(len(r) == len(b)+specVlen(uint64(len(v)))+len(v))
 	ensures(forall(0, len(b), func(i int) bool { return r[i] == old(b[i]) }))
-	ensures(forall(0, specVlen(uint64(len(v))), func(k int) bool { return r[len(b)+k] == specVbyte(uint64(len(v)), k) }))
+	ensures(specVarintAt(r, len(b), uint64(len(v))))
 	ensures(forall(0, len(v), func(k int) bool { return r[len(b)+specVlen(uint64(len(v)))+k] == old(v[k]) }))
 	return
 }
@@ -270,7 +281,7 @@ func contract_AppendString(b []byte, v string) (r []byte) {
 	ensures(freshSlice(r) || sameArray(r, b)) // extended in place, or reallocated
 	ensures(len(r) == len(b)+specVlen(uint64(len(v)))+len(v))
 	ensures(forall(0, len(b), func(i int) bool { return r[i] == old(b[i]) }))
-	ensures(forall(0, specVlen(uint64(len(v))), func(k int) bool { return r[len(b)+k] == specVbyte(uint64(len(v)), k) }))
+	ensures(specVarintAt(r, len(b), uint64(len(v))))
 	ensures(forall(0, len(v), func(k int) bool { return r[len(b)+specVlen(uint64(len(v)))+k] == v[k] }))
 	return
 }
@@ -284,9 +295,7 @@ func contract_AppendGroup(b []byte, num Number, v []byte) (r []byte) {
 	ensures(len(r) == len(b)+len(v)+specVlen(uint64(num)<<3|4))
 	ensures(forall(0, len(b), func(i int) bool { return r[i] == old(b[i]) }))
 	ensures(forall(0, len(v), func(k int) bool { return r[len(b)+k] == old(v[k]) }))
-	ensures(forall(0, specVlen(uint64(num)<<3|4), func(k int) bool {
-		return r[len(b)+len(v)+k] == specVbyte(uint64(num)<<3|4, k)
-	}))
+	ensures(specVarintAt(r, len(b)+len(v), uint64(num)<<3|4))
 	return
 }
 
@@ -387,9 +396,10 @@ func lemma_TagRoundTrip(num Number, typ Type, x uint64) {
 }
 
 //@ props C01
-//@ inline AppendVarint ConsumeVarint
+//@ mode int
 func lemma_VarintRoundTrip(b []byte, v uint64) {
 	r := AppendVarint(b, v)
+	lemma_SpecVarintInverse(r[len(b):], v)
 	w, n := ConsumeVarint(r[len(b):])
 	ensures(n == SizeVarint(v))
 	ensures(n == len(r)-len(b))
@@ -425,7 +435,7 @@ func lemma_TagWireRoundTrip(b []byte, num Number, typ Type) {
 //@ props C01
 func lemma_SpecVarintInverse(s []byte, v uint64) {
 	requires(len(s) >= specVlen(v))
-	requires(forall(0, specVlen(v), func(k int) bool { return s[k] == specVbyte(v, k) }))
+	requires(specVarintAt(s, 0, v))
 	ensures(specVarintLen(s) == specVlen(v))
 	ensures(specVarintVal(s, specVlen(v)) == v)
 }
